@@ -218,6 +218,8 @@ impl Selector {
 pub(crate) enum Display {
     /// display: none
     None,
+    /// display: anything else (the element is shown)
+    Other,
     #[cfg(feature = "css_ext")]
     /// Show node as HTML DOM
     ExtRawDom,
@@ -257,6 +259,8 @@ impl std::fmt::Display for StyleDecl {
             Style::BgColour(col) => write!(f, "background-color: {}", col)?,
             #[cfg(feature = "css")]
             Style::Display(Display::None) => write!(f, "display: none")?,
+            #[cfg(feature = "css")]
+            Style::Display(Display::Other) => write!(f, "display: block")?,
             #[cfg(feature = "css_ext")]
             Style::Display(Display::ExtRawDom) => write!(f, "display: x-raw-dom")?,
             #[cfg(feature = "css")]
@@ -373,7 +377,14 @@ fn styles_from_properties(decls: &[parser::Declaration]) -> Vec<StyleDecl> {
                         importance: decl.important,
                     });
                 }
-                _ => (),
+                // Any other value shows the element; it has to take part in the
+                // cascade so that it can override a less specific display: none.
+                _ => {
+                    styles.push(StyleDecl {
+                        style: Style::Display(Display::Other),
+                        importance: decl.important,
+                    });
+                }
             },
             parser::Decl::WhiteSpace { value } => {
                 styles.push(StyleDecl {
